@@ -104,7 +104,7 @@ example : (runTrace init [.connCall, .implStart, .implOk 1, .status .connected, 
     some (.closed, true, [.connected, .closed]) := by decide +kernel
 
 -- non-vacuity: the user closes from the status callback at the first fault (the callback runs inside the receive task)
-example : (runTrace init [.connCall, .implStart, .implOk 1, .status .connected, .connReturn, .recvStart 1, .envEof 1, .status .disconnected,
+example : (runTrace init [.connCall, .implStart, .implOk 1, .status .connected, .connReturn, .recvStart 1, .envEof 1, .writerClose 1, .status .disconnected,
     .closeCallInRecv, .status .closed, .writerClose 1, .closeReturn, .recvExit 1 false]).map (fun s => (s.st, s.closeReturned, s.recv, s.statusLog)) =
     some (.closed, true, none, [.connected, .disconnected, .closed]) := by decide +kernel
 
